@@ -103,6 +103,20 @@ class CaseGen:
             fam = rng.choice(["ring", "diamond"])
             sd = scen.random_sd(rng, family=fam)
             return fam, sd, scen.sd_to_scenario(sd)
+        if rng.random() < self.cfg.get("many_hosts_frac", 0.012):
+            sd = scen.many_hosts_sd(rng)
+            return "random-many-hosts", sd, scen.sd_to_scenario(sd)
+        if rng.random() < self.cfg.get("loaded_frac", 0.08):
+            # a random document written to disk and read back by the real loader: the Scenario object (host firewalls,
+            # definitions) is then the loader's, not the harness's
+            import check_load
+            doc_ = check_load.random_doc(rng) if rng.random() < 0.5 else check_load.sd_to_doc(rng, scen.explore_sd(rng))
+            seen_, ok_, sc_ = check_load.impl_load(doc_, "dyn")
+            if ok_:
+                try:
+                    return "random-loaded", scen.scenario_to_sd(sc_), sc_
+                except Exception:   # noqa: BLE001 -- unreadable loaded scenarios are C17's business
+                    pass
         if rng.random() < self.cfg.get("very_wide_frac", 0.03):
             # an address space so large that one host vector has more than a thousand entries
             sd = scen.random_sd(rng, max_subnets=3, max_size=2)
